@@ -205,11 +205,11 @@ type stepOut struct {
 }
 
 type LexMismatch struct {
-	Input    []int     `json:"input"`
+	Input    []int             `json:"input"`
 	Classes  map[string]string `json:"classes"`
-	Expected LexResult `json:"expected"`
-	Observed LexResult `json:"observed"`
-	Crash    string    `json:"crash,omitempty"`
+	Expected LexResult         `json:"expected"`
+	Observed LexResult         `json:"observed"`
+	Crash    string            `json:"crash,omitempty"`
 }
 
 type lexWalkStats struct {
